@@ -419,6 +419,8 @@ pub struct HeaderSummary {
     pub count: usize,
     pub first: Option<u32>,
     pub last: Option<u32>,
+    /// data type of a device attribute (g0) as parsed, "" otherwise
+    pub attr: String,
 }
 
 fn summarize_headers(
@@ -436,9 +438,33 @@ fn summarize_headers(
             count,
             first,
             last,
+            attr: attr_type(&h.details),
         });
     }
     out
+}
+
+/// data type of a parsed device attribute (g0) as the parser classified it, "" for anything else
+fn attr_type(d: &crate::app::parse::parser::HeaderDetails) -> String {
+    use crate::app::attr::AttrValue as A;
+    use crate::app::gen::ranged::RangedVariation as R;
+    use crate::app::parse::parser::HeaderDetails as H;
+    let attr = match d {
+        H::OneByteStartStop(_, _, R::Group0(_, Some(a))) => a,
+        H::TwoByteStartStop(_, _, R::Group0(_, Some(a))) => a,
+        _ => return String::new(),
+    };
+    match attr.value {
+        A::VisibleString(_) => "VSTR",
+        A::UnsignedInt(_) => "UINT",
+        A::SignedInt(_) => "INT",
+        A::FloatingPoint(_) => "FLT",
+        A::OctetString(_) => "OSTR",
+        A::Dnp3Time(_) => "TIME",
+        A::BitString(_) => "BSTR",
+        A::AttrList(_) => "LIST",
+    }
+    .to_string()
 }
 
 fn details_summary(
